@@ -90,7 +90,7 @@ class GeckoSpa(GeckoUdpSocket):
         self.add_receive_handler(GeckoPackCommandProtocolHandler())
         self.queue_send(
             GeckoPackCommandProtocolHandler.set_value(
-                self.get_and_increment_sequence_counter(False),
+                self.get_and_increment_sequence_counter(True),
                 self.pack_type,
                 self.config_version,
                 self.log_version,
